@@ -739,7 +739,8 @@ Section Inv.
     destruct (base o (set_ev V SK [] s)) as [s0 r] eqn:E. cbn [fst] in X.
     destruct X as (PI & LW & LR & EV & LL).
     eapply good_bind; [apply (try_maint_spec s0 PI LR)|].
-    intros s' [I' E']. apply good_ok. unfold step_post. cbn [fst snd]. auto.
+    intros s' [I' E']. apply good_ok. unfold step_post. rewrite E. cbn [fst snd].
+    split; [exact I'|]. split; [exact E'|reflexivity].
   Qed.
 
   Lemma inv_init sk0 : inv (init sk0).
